@@ -37,7 +37,7 @@ def gen(rng, scenario, tier):
     d = rng.randint(1, 3)
     cfg = {"k_nn": rng.choice([1, 2, 3, 4, 5, 8, 12]), "sampling_times": rng.randint(8, 30), "alpha": rng.choice([0.01, 0.1, 0.3, 0.6, 0.8])}
     bs, drifts = workload.batches(rng, rng.randint(4, 10), d, rng.choice([3, 6, 6]), 34, equal=rng.random() < 0.4, drift_rate=rng.choice([0.3, 0.5]),
-                                  nd=rng.choice([1, 2, 2]), dup=rng.choice([0.0, 0.2, 0.4]))
+                                  nd=rng.choice([1, 2, 2]), dup=rng.choice([0.0, 0.2, 0.4]), regimes=("offset", "tiny", "lattice"))
     # duplicates across consecutive batches
     for i in range(1, len(bs)):
         if rng.random() < 0.4:
@@ -53,7 +53,13 @@ def gen(rng, scenario, tier):
             nb += [list(rng.choice(prev)) for _ in range(rng.randint(0, 3))]
             nb += [list(rng.choice(bs[0])) for _ in range(rng.randint(1, 4))]
             bs[i] = nb
-    return {"cfg": cfg, "events": [[b, np_seed(rng)] for b in bs], "drift_positions": drifts}
+    case = {"cfg": cfg, "events": [[b, np_seed(rng)] for b in bs], "drift_positions": drifts}
+    if rng.random() < 0.15 and abs(bs[0][0][0]) < 1e6:
+        # the reference holds whole numbers and arrives integer-typed (counts); the test batches are real-valued
+        sc = max(1.0, 3.0 / max(1e-12, max(abs(v) for r in bs[0] for v in r)))
+        bs[0][:] = [[float(round(v * sc)) for v in r] for r in bs[0]]
+        case["int_ref"] = True
+    return case
 
 
 def members(D, S):
@@ -109,7 +115,8 @@ def run(case, ctx):
             X = np.array(rows, dtype=float)
             if i == 0:
                 np.random.seed(seed)
-                ctx.call("C10:set_reference", det.set_reference, X.copy())
+                ref_typed = X.astype(np.int64) if case.get("int_ref") else X
+                ctx.call("C10:set_reference", det.set_reference, ref_typed.copy())
                 ref = X
                 continue
             D = np.unique(np.vstack([ref, X]), axis=0)
@@ -121,7 +128,8 @@ def run(case, ctx):
             ctx.sim_time += 1
             # ---- the partitioner on exactly these two samples
             p = NNSpacePartitioner(k) if i % 2 else reused
-            ctx.call("C10:nnsp:build", p.build, ref.copy(), X.copy())
+            first = ref_typed.copy() if (ref is not X and case.get("int_ref") and np.array_equal(ref, ref_typed)) else ref.copy()
+            ctx.call("C10:nnsp:build", p.build, first, X.copy())
             # the partitioner's D may list the de-duplicated union in any order: everything below is indexed like p.D
             Dp = np.asarray(p.D, dtype=float)
             same_set = Dp.shape == D.shape and np.array_equal(np.unique(Dp, axis=0), D)
